@@ -147,6 +147,12 @@ def run(ctx):
         ctx.check(bad_cycle is None and not bad_self, "R11.9", "no-lock-cycle-through-worker",
                   "no lock-order cycle (or same-class nested acquisition) involves code reachable from the command worker: a worker stuck behind another thread applies no further write",
                   detail=("cycle %s" % " -> ".join(bad_cycle) if bad_cycle else "") + (" self %s" % bad_self[:2] if bad_self else ""))
+    # ---- R11.10 (= C18 R18.3) "nothing is dropped even when the command queue is full": a caller that waits for queue room
+    # while holding a lock the worker needs (a store shard guard kept across the blocking send) stops the only consumer of
+    # that queue - every write queued behind it is never applied
+    for o in ctx.own_of("c18"):
+        if o["rule"] == "R18.3":
+            ctx._add(o["status"], "R11.10", o["key"].split("|", 1)[1], o["desc"], o["where"], o["detail"])
     # ---- R11.8 (= C12 R12.3) an acknowledgement that completed is delivered to whoever awaits it *now*: completion order is
     # observed through the futures, and a handle that keeps the first waker it saw never wakes a later awaiter - the
     # earlier write then never completes for its awaiter while later ones do
